@@ -244,12 +244,23 @@ def rule_eof(ctx):
     ctx.rule("C01.EOF", "AsyncStreamIterator.__anext__ returns exactly the value it read when non-empty and stops otherwise")
     it = p.method("AsyncStreamIterator", "__anext__")
     var = None
-    for n in it.body:
-        if isinstance(n, ast.Assign) and isinstance(n.value, ast.Await) and isinstance(n.targets[0], ast.Name):
+    for n in walk_no_nested(it):
+        if isinstance(n, ast.Assign) and isinstance(n.value, ast.Await) and isinstance(n.targets[0], ast.Name) and isinstance(n.value.value, ast.Call) \
+                and last_attr(n.value.value.func) == "read_coro":
             var = n.targets[0].id
             called = n.value.value
-            ok = isinstance(called, ast.Call) and last_attr(called.func) == "read_coro" and not called.args
+            ok = not called.args
             ctx.ob("C01.EOF", n, "the iterator awaits its read coroutine once per step", ok, "the iterator does not await self.read_coro()", construct="eof:read call")
+            # a failing read must surface (timeout, reset): a handler that swallows it makes the failure look like the end of the data
+            child, par = n, p.parent.get(n)
+            while par is not None and par is not it:
+                if isinstance(par, ast.Try) and child in par.body:
+                    for h in par.handlers:
+                        swallows = not any(isinstance(x, ast.Raise) for s_ in h.body for x in walk_self(s_))
+                        ctx.ob("C01.EOF", h, f"`except {src(h.type) if h.type is not None else ''}` around the read re-raises", not swallows,
+                               f"the block iterator catches {src(h.type) if h.type is not None else 'everything'} around its read and carries on: a timeout or reset in the middle of a transfer "
+                               "(TimeoutError is an OSError) ends the loop like an empty read - the prefix is stored and answered 226", construct="eof:read error swallowed")
+                child, par = par, p.parent.get(par)
     if var is None:
         raise Inconclusive("C01.EOF: shape of AsyncStreamIterator.__anext__ not recognised (no `x = await ...`)")
 
@@ -756,4 +767,11 @@ def rule_shared_cursor(ctx):
     ctx.borrow(rule_pure, {"C18.PURE": "C01.CURSOR"})
 
 
-RULES = [rule_ack, rule_copy, rule_eof, rule_thru, rule_seek, rule_offset, rule_cli, rule_shared_cursor]
+def rule_close_surfaces(ctx):
+    from .c12 import rule_file
+    ctx.rule("C01.CLOSE", "a failing close()/flush of the stored file surfaces (451), it never turns into the 226 of a complete transfer: the file context's __aexit__ "
+                          "lets the close error propagate (shared with C12.FILE)")
+    ctx.borrow(rule_file, {"C12.FILE": "C01.CLOSE"})
+
+
+RULES = [rule_ack, rule_copy, rule_eof, rule_thru, rule_seek, rule_offset, rule_cli, rule_shared_cursor, rule_close_surfaces]
